@@ -383,7 +383,29 @@ impl World {
             let mut cron_ok = true;
             let mut fails = vec![];
             let mut trs: Vec<Value> = vec![];
+            // the continued-fault fee each miner's proving-deadline callback owes in these epochs: the faulty
+            // QA power of a deadline at the moment it closes, priced by the protocol's own fee function with
+            // the estimates the callback will read (the reward / power actors update them after the callbacks)
+            let mut ffee: BTreeMap<String, TokenAmount> = BTreeMap::new();
             for _ in 0..n {
+                {
+                    let epoch = self.v.epoch();
+                    let ps: PowerState = self.v.state(&STORAGE_POWER_ACTOR_ADDR).unwrap();
+                    let rs: fil_actor_reward::State = self.v.state(&REWARD_ACTOR_ADDR).unwrap();
+                    for m in &self.miners {
+                        let st = self.mstate(m);
+                        let di = st.deadline_info(&self.v.policy, epoch);
+                        if st.deadline_cron_active && di.period_started() && epoch == di.last() {
+                            let dls = st.load_deadlines(&self.v.store).unwrap();
+                            let dl = dls.load_deadline(&self.v.store, di.index).unwrap();
+                            if dl.live_sectors > 0 {
+                                let fee = fil_actor_miner::pledge_penalty_for_continued_fault(
+                                    &rs.this_epoch_reward_smoothed, &ps.this_epoch_qa_power_smoothed, &dl.faulty_power.qa);
+                                *ffee.entry(m.clone()).or_default() += fee;
+                            }
+                        }
+                    }
+                }
                 let o = self.v.tick();
                 if o.ok() {
                     trs.extend(self.transfers(&o).as_array().unwrap().iter().cloned());
@@ -398,6 +420,7 @@ impl World {
             ev["cronOK"] = json!(cron_ok);
             ev["fails"] = json!(fails);
             ev["tr"] = json!(trs);
+            ev["ffee"] = json!(self.miners.iter().map(|m| json!([m, big(ffee.get(m).unwrap_or(&TokenAmount::from_atto(0)))])).collect::<Vec<_>>());
             ev["injected"] = json!(self.v.faults_fired());
             ev["st"] = self.project();
             return ev;
